@@ -2,28 +2,19 @@
 
 namespace hv
 {
-    std::map<long long, std::map<long long, long long>> g_src_script;
-    std::map<long long, std::map<long long, std::vector<TimerOp>>> g_timer_script;
-    std::map<long long, long long> g_eval_count;
-
     void reset_all_tables()
     {
-        g_src_script.clear();
-        g_timer_script.clear();
-        g_eval_count.clear();
-        g_faults = FaultPlan{};
+        ctx().src_script.clear();
+        ctx().timer_script.clear();
+        ctx().faults = FaultPlan{};
     }
 
-    void reset_vocab_counters()
-    {
-        g_eval_count.clear();
-        g_faults.count.clear();
-    }
+    void reset_vocab_counters() { ctx().faults.count.clear(); }
 
     // k:op,op;k:op   op = +N[#tag] | @N[#tag] | u#tag | U | p#tag | r
     void parse_timer_script(long long id, const std::string &text)
     {
-        auto &tab = g_timer_script[id];
+        auto &tab = ctx().timer_script[id];
         for (auto &grp : split(text, ';'))
         {
             if (grp.empty()) continue;
@@ -67,8 +58,8 @@ namespace hv
             log_queries(l, s);
             l.emit();
         }
-        auto ti = g_timer_script.find(id);
-        if (ti == g_timer_script.end()) return;
+        auto ti = ctx().timer_script.find(id);
+        if (ti == ctx().timer_script.end()) return;
         auto ki = ti->second.find(k);
         if (ki == ti->second.end()) return;
         int n = 0;
